@@ -1,0 +1,8 @@
+//go:build verif
+
+package journal
+
+// VerifID identifies a Day in the verification trace (see lib/common/cpr/verif_on.go).
+func (d *Day) VerifID() string {
+	return d.Date.Format("2006-01-02")
+}
